@@ -49,6 +49,9 @@ VerdictTrunc(t) ==
 ---------------------------------------------------------------------------
 (* C03 on observed fields: same shape once literal payloads are abstracted *)
 Prop_C03(t) == t.ea = "" /\ t.eb = "" /\ ShapeSeq(t.ta) = ShapeSeq(t.tb)
+(* ... and the same emitted Python once its constants are abstracted (ca, cb: the harness's projection
+   of transpile(a), transpile(b)) -- "changes only the value that one literal pushes" *)
+Prop_C03_Code(t) == Has(t, "ca") => t.ca = t.cb
 
 VerdictLit(t) ==
     LET SA == ParseText(t.a)
@@ -56,6 +59,7 @@ VerdictLit(t) ==
     IN IF AnyError(SA) \/ AnyError(SB) THEN "skip:not-wellformed"
        ELSE IF ShapeSeq(SA) # ShapeSeq(SB) THEN "skip:spec-shapes-differ"
        ELSE IF ~Prop_C03(t) THEN "violation:payload-changes-shape"
+       ELSE IF ~Prop_C03_Code(t) THEN "violation:payload-changes-emitted-code"
        ELSE IF t.ta # SA \/ t.tb # SB THEN "drift:tree"
        ELSE "ok"
 
